@@ -153,12 +153,18 @@ def op_to_coq(t):
     raise KeyError(n)
 
 def alphabet(p):
-    """macro steps (lists of ops) for the history theorems"""
+    """macro steps (lists of Coq op terms) for the history theorems"""
+    return [[op_to_coq(o) for o in m] for m in macros(p)]
+
+NO_PARTIAL = ('epd2in13bc', 'epd2in9bc')   # update_partial_frame is a documented no-op there
+
+def macros(p):
+    """macro steps as script token lists: the protocol-respecting history alphabet"""
     V = gen.op_variants(p, False)
     F = p.frame
     M = []
     def add(*ops):
-        M.append([op_to_coq(o) for o in ops])
+        M.append([list(o) for o in ops])
     for c in V['set_background_color']:
         add(c)
     for r in V['set_lut']:
@@ -173,8 +179,9 @@ def alphabet(p):
     add(['sleep'], ['wake_up'])
     add(['wake_up'])
     wins = V['update_partial_frame'][:3] + V['update_partial_frame'][4:5]
-    for w in wins:
-        add(w)
+    if p.name not in NO_PARTIAL:
+        for w in wins:
+            add(w)
     if p.three:
         add(V['update_color_frame'][0])
         add(V['update_achromatic_frame'][0], V['update_chromatic_frame'][0])
